@@ -303,3 +303,26 @@ func FieldFlagBad(t *T, lines []string) {
 	}
 }
 func clearFlag(s *flagState) { s.failed = false }
+
+// ---- normaliser, leading defers: the helper's deferred close is made after its body once merged
+func InlDeferCaller(name string) error {
+	f, err := os.Open(name)
+	if err != nil {
+		return err
+	}
+	if err := inlStatAndClose(f); err != nil {
+		return err
+	}
+	return nil
+}
+func inlStatAndClose(f *os.File) (err error) {
+	defer func() {
+		if cerr := f.Close(); err == nil {
+			err = cerr
+		}
+	}()
+	if _, err := f.Stat(); err != nil {
+		return err
+	}
+	return nil
+}
